@@ -112,8 +112,18 @@ def targets():
         mk('from_rpy', ['ro', 'pi', 'ya'],
            lambda A, v: (lambda Q: [np.asarray(Q), Q.to_DCM()])(A.QuaternionArray(rpy=v.mat([['ro', 'pi', 'ya']]))),
            'QuaternionArray(rpy=[[roll, pitch, yaw]]) (the constructor Sensors uses for a random trajectory) and its to_DCM()'),
+        mk('arstep', ['w', 'x', 'y', 'z', 'g0', 'g1', 'g2'],
+           lambda A, v: A.filters.AngularRate().update(v.vec('w', 'x', 'y', 'z'), v.vec('g0', 'g1', 'g2'), method='closed', dt=0.01),
+           "AngularRate().update(q, gyr, method='closed', dt=0.01): the integrator step used by the re-integration clause"),
         mk('rand_acc', AN + G + MREF + ['sa', 'sm'] + DRAW['na'], lambda A, v: _sensors(A, v, given=False).accelerometers,
            'Sensors(num_samples=3) with random_angpos -> symbolic angles: .accelerometers'),
+        mk('rand_yaw', AN + ['yw'] + MREF + ['sm'],
+           lambda A, v: (lambda s: [np.asarray(s.quaternions), s.ang_pos, s.ang_vel])(_sensors(A, v, given=False, yaw=v['yw'])),
+           'Sensors(num_samples=3, yaw=yw): [.quaternions, .ang_pos, .ang_vel] - the rates must be those of the REPORTED quaternions'),
+        mk('rand_full', AN + ['yw'] + G + MREF + ['sa', 'sm'] + DRAW['na'],
+           lambda A, v: (lambda s: [np.asarray(s.quaternions), s.ang_pos, s.ang_vel, s.rotations, s.accelerometers])(
+               _sensors(A, v, given=False, yaw=v['yw'])),
+           'the same with .rotations and .accelerometers (theorem in the thorough tier)'),
         mk('rand_repr', AN + MREF + ['sm'],
            lambda A, v: (lambda s: [np.asarray(s.quaternions), s.rotations, s.ang_pos, s.ang_vel])(_sensors(A, v, given=False)),
            '[.quaternions, .rotations, .ang_pos, .ang_vel] for the angle-generated trajectory'),
@@ -136,14 +146,12 @@ def _stages():
     committed to /repo as f81ca90) the positive theorem C20_mag_is_body_field (C20_magfix.v, C20_fixed.v) is an
     obligation instead.  The finding is recorded as `fixed`, so a tree on which it reproduces again is a VIOLATION."""
     live = _finding_live()
-    st2 = ['C20_acc.v', 'C20_mag.v', 'C20_magnorm.v', 'C20_gyro_rad.v', 'C20_gyro_deg.v', 'C20_gyro_rad_50.v',
-           'C20_gyro_rad_333.v', 'C20_gyro_deg_333.v', 'C20_repr.v',
-           'C20_rand.v', 'C20_firstorder.v', 'C20_euler.v']
-    st3 = ['C20.v']
-    st2.append(('C20_refuted.v', {'finding': TAG_MAG0}) if live else 'C20_magfix.v')
-    out = [['C20_spec.v'], st2, st3]
-    if not live:
-        out.append(['C20_fixed.v'])
+    # slowest first: the pool runs 8 files at a time
+    st2 = ['C20_randyaw.v', 'C20_gyro_rad.v', 'C20_gyro_deg.v', 'C20_rand.v', 'C20_firstorder.v', 'C20_magnorm.v',
+           'C20_repr.v', 'C20_arstep.v', 'C20_mag.v', 'C20_acc.v', 'C20_euler.v', 'C20_rows.v']
+    st3 = ['C20_integrate.v']
+    st2.insert(2, ('C20_refuted.v', {'finding': TAG_MAG0}) if live else 'C20_magfix.v')
+    out = [['C20_spec.v'], st2, st3, ['C20.v', 'C20_any_length.v'] + ([] if live else ['C20_fixed.v'])]
     return out
 
 
@@ -242,8 +250,107 @@ def _cases(ctx, n, names, rand=False):
     return out, seeds
 
 
+def _leaf_vars(tree):
+    """per output index, the union over all value leaves of the input variables the output depends on; and the variables
+    of the branch conditions"""
+    from pysym.sym import Leaf
+    from pysym import emit
+    outs, conds = {}, set()
+
+    def vars_of(e):
+        acc, order = {}, []
+        emit._deps(e, acc, order)
+        return {x.args[0] for x in order if x.op == 'var'}
+
+    def rec(t):
+        if isinstance(t, Leaf):
+            if t.kind == 'val':
+                for i, e in enumerate(t.flat):
+                    outs.setdefault(i, set()).update(vars_of(e))
+            return
+        for a in t.cond.args:
+            conds.update(vars_of(a))
+        rec(t.t); rec(t.f)
+    rec(tree)
+    return outs, conds
+
+
+def row_locality(ctx):
+    """structural check on the regenerated DAGs: which input symbols each output row depends on.  The code is row-wise
+    when row i of the output mentions only row i's quaternion and draw (plus the shared references / levels); that is
+    what lets the three-row theorems speak for every trajectory length (C20_rows.v).  Recorded in the evidence; a row that
+    reaches into another row's symbols breaks the argument and is reported as a broken obligation."""
+    rowq = lambda i: set(QR[i])
+    spec = {
+        'C20_acc': lambda i: (range(3 * i, 3 * i + 3), rowq(i) | set(G) | {'sa'} | {f'na{i}{j}' for j in range(3)}),
+        'C20_mag': lambda i: (range(3 * i, 3 * i + 3), rowq(i) | set(MREF) | {'sm'} | {f'nm{i}{j}' for j in range(3)}),
+        'C20_mag_norm': lambda i: (range(3 * i, 3 * i + 3), rowq(i) | set(MREF) | {'sm'} | {f'nm{i}{j}' for j in range(3)}),
+        'C20_repr': lambda i: (list(range(4 * i, 4 * i + 4)) + list(range(12 + 9 * i, 21 + 9 * i)) + list(range(39 + 3 * i, 42 + 3 * i)), rowq(i)),
+        'C20_gyro_rad': lambda i: (range(12 + 3 * i, 15 + 3 * i), (rowq(i - 1) | rowq(i)) if i else set()),
+        'C20_gyro_deg': lambda i: (range(12 + 3 * i, 15 + 3 * i), (rowq(i - 1) | rowq(i)) if i else set()),
+    }
+    for name, f in spec.items():
+        t = ctx.targets.get(name)
+        if t is None or t.error:
+            continue
+        outs, conds = _leaf_vars(t.tree)
+        rep = {'rows': {}, 'gate_symbols': sorted(conds)}
+        ok = True
+        for i in range(N):
+            idx, allowed = f(i)
+            used = set().union(*[outs.get(k, set()) for k in idx])
+            rep['rows'][str(i)] = sorted(used)
+            if not used <= allowed:
+                ok = False
+                ctx.broken.append({'kind': 'translation', 'target': name,
+                                   'error': f'row {i} of the regenerated output depends on symbols of other rows: {sorted(used - allowed)}'})
+                ctx.say(f"[locality] {name}: row {i} depends on {sorted(used - allowed)} (not row-wise)")
+        rep['row_wise'] = ok
+        ctx.targets_meta.setdefault(name, {})['row_locality'] = rep
+    ctx.say("[locality] " + ', '.join(f"{k}: {'row-wise' if v.get('row_locality', {}).get('row_wise') else '?'}"
+                                      for k, v in ctx.targets_meta.items() if 'row_locality' in v))
+
+
+def windowed(ctx):
+    """uniformity in N, tied through the model: real runs with N in 10..64 rows; every window of three consecutive rows
+    (first, second, middle, last) of the real accelerometer / magnetometer / representation arrays must equal the
+    three-row regenerated float model evaluated on those rows' quaternions and draws (the arrays are row-wise)."""
+    import ahrs
+    M = _mod()
+    T = {t.name: t for t in targets()}
+    live = _finding_live()
+    plan = {'C20_acc': ('na', lambda s, i: s.accelerometers[i:i + 3], {}),
+            'C20_repr': (None, lambda s, i: [np.asarray(s.quaternions)[i:i + 3], s.rotations[i:i + 3], s.ang_pos[i:i + 3]], {})}
+    if not live:          # with the override present the gate compares against the ptp of ALL rows: not window-local
+        plan['C20_mag'] = ('nm', lambda s, i: [s.magnetometers[i:i + 3], s.mag_noise], {})
+        plan['C20_mag_norm'] = ('nm', lambda s, i: [s.magnetometers[i:i + 3], s.mag_noise], {'normalized_mag': True})
+    for name, (dkey, what, kw) in plan.items():
+        names = T[name].inputs
+        cases, exp = [], {}
+        for k, n in enumerate([10, 11, 17, 64][:ctx.n(3, 4)]):
+            seed = int(ctx.rng.integers(1, 2**31))
+            Q = np.array([cm.rand_unit_quat(ctx.rng) for _ in range(n)])
+            lv = {'sg': 0.3, 'sa': [0.0, 0.05][k % 2], 'sm': [0.0, 25.0][(k + 1) % 2]}
+            mref = M.REFERENCE_MAGNETIC_VECTOR if k % 2 else ctx.rng.standard_normal(3) * 100
+            gref = ctx.rng.standard_normal(3) * 9.8
+            _reseed(seed)
+            s = ahrs.Sensors(quaternions=Q, freq=100.0, gyr_noise=lv['sg'], acc_noise=lv['sa'], mag_noise=lv['sm'],
+                             reference_magnetic_vector=mref, reference_gravitational_vector=gref, **kw)
+            D = _draws(seed, n)
+            for i in sorted({0, 1, n // 2, n - 3}):
+                c = {**cm.d(QN, Q[i:i + 3].reshape(-1)), **cm.d(MREF, mref), **cm.d(G, gref), **lv, **cm.d(U, D['u'])}
+                for key in ('ng', 'na', 'nm'):
+                    c.update(cm.d(DRAW[key], D[key][i:i + 3].reshape(-1)))
+                c = {x: c[x] for x in names}
+                cases.append(c)
+                exp[id(c)] = what(s, i)
+        ctx.correspond(name, cases, lambda c: exp[id(c)], tol_ulp=256, label=name + '@window')
+
+
 def correspondence(ctx):
     n = ctx.n(24, 200)
+    row_locality(ctx)
+    windowed(ctx)
     T = {t.name: t for t in targets()}
 
     def run(name, impl_fn, what, rand=False, **kw):
@@ -266,7 +373,22 @@ def correspondence(ctx):
           [cm.d(['ro', 'pi', 'ya'], a) for a in ([0.0, 0.0, 0.0], [np.pi, 0.0, 0.0], [0.0, np.pi / 2, 0.0], [0.3, -np.pi / 2, 2.0], [-np.pi, np.pi, -np.pi])]
     ctx.correspond('C20_from_rpy', ang, lambda c: (lambda Q: [np.asarray(Q), Q.to_DCM()])(
         ahrs.QuaternionArray(rpy=np.array([[c['ro'], c['pi'], c['ya']]]))), tol_ulp=256)
+    arc = []
+    for k in range(n):
+        q = cm.rand_unit_quat(ctx.rng) * (1.0 if k % 3 else 2.5)
+        g = ctx.rng.standard_normal(3) * 10 ** ctx.rng.uniform(-3, 2) if k % 6 else np.zeros(3)
+        arc.append({**cm.d(['w', 'x', 'y', 'z'], q), **cm.d(['g0', 'g1', 'g2'], g)})
+    ctx.correspond('C20_arstep', arc, lambda c: ahrs.filters.AngularRate().update(
+        np.array([c[k] for k in 'wxyz']), np.array([c['g0'], c['g1'], c['g2']]), method='closed', dt=0.01), tol_ulp=256)
     run('C20_rand_acc', _impl_rand, lambda s: s.accelerometers, rand=True)
+    for tname, what in (('C20_rand_yaw', lambda s: [np.asarray(s.quaternions), s.ang_pos, s.ang_vel]),
+                        ('C20_rand_full', lambda s: [np.asarray(s.quaternions), s.ang_pos, s.ang_vel, s.rotations, s.accelerometers])):
+        names = T[tname].inputs
+        ycases, yseeds = _cases(ctx, n, [x for x in names if x != 'yw'], True)
+        for k, c in enumerate(ycases):
+            c['yw'] = [0.0, 37.5, -120.0, 90.0, 0.25][k % 5]
+        ykey = {id(c): sd for c, sd in zip(ycases, yseeds)}
+        ctx.correspond(tname, ycases, lambda c, what=what, ykey=ykey: _impl_rand(c, ykey[id(c)], what, yaw=c['yw']), tol_ulp=256)
     run('C20_rand_repr', _impl_rand, lambda s: [np.asarray(s.quaternions), s.rotations, s.ang_pos, s.ang_vel], rand=True)
 
 
@@ -338,6 +460,10 @@ def o_sensors(inp):
         kw['reference_magnetic_vector'] = list(inp['mref']) if inp.get('ref_as_list') else np.array(inp['mref'], float)
     if inp.get('gref') is not None:
         kw['reference_gravitational_vector'] = list(inp['gref']) if inp.get('ref_as_list') else np.array(inp['gref'], float)
+    if inp.get('yaw') is not None:
+        kw['yaw'] = inp['yaw']
+    if inp.get('span') is not None:
+        kw['span'] = tuple(inp['span']) if inp.get('span_as_tuple', True) else list(inp['span'])
     given = inp['kind'] == 'given'
     _reseed(seed)
     if given:
@@ -370,6 +496,14 @@ def o_sensors(inp):
         return {'tag': f'{E}/shapes', 'observed': [list(x.shape) for x in (qs, Rm, ap, av, acc, mag, gyr, bias)]}
     if any(cm.bad(x) for x in (qs, Rm, ap, av, acc, mag, gyr, bias)):
         return {'tag': f'{E}/non-finite', 'observed': 'nan/inf in outputs'}
+    # ---- trajectory keywords of the random route mean what they say (and are ignored by the given route)
+    if not given and inp.get('yaw') is not None and cm.maxabs(ap[:, 2], float(inp['yaw']) * math.pi / 180.0) > 1e-12:
+        return {'tag': f'{E}.ang_pos/yaw-keyword-not-applied', 'observed': ap[:3, 2], 'expected': float(inp['yaw']) * math.pi / 180.0}
+    if not given and inp.get('span') is not None:
+        lo, hi = min(0.0, float(inp['span'][0])), max(0.0, float(inp['span'][1]))
+        cols = ap[:, :2] if inp.get('yaw') is not None else ap
+        if cols.min() < lo - 1e-9 or cols.max() > hi + 1e-9:
+            return {'tag': f'{E}.ang_pos/outside-span', 'observed': [float(cols.min()), float(cols.max())], 'expected': [lo, hi]}
     # ---- representations agree
     if given and cm.maxabs(qs, Q) > 1e-12:
         return {'tag': f'{E}.quaternions/not-the-given-trajectory', 'observed': cm.maxabs(qs, Q)}
@@ -484,6 +618,61 @@ def o_sensors(inp):
     return pending
 
 
+# how every keyword of Sensors(...) is exercised.  The constructor takes **kwargs, so the list is enumerated from
+# inspect.signature(Sensors.__init__) plus every key the class body reads from `kwargs` (ast); a key that is read by the
+# code and is not in this table is reported as a broken obligation (kind 'coverage'), never silently skipped.
+KEYWORDS = {
+    'quaternions': "given route; search: 7 trajectory families x array/list/QuaternionArray/unnormalised/float32/int forms; traced symbolically (3 generic rows)",
+    'num_samples': "random route; search: 13 fixed sizes 10..128 + random 10..400; the traced random-route targets use 3 rows (random_angpos stubbed)",
+    'freq': "both routes; search: 1, 10, 50, 100 (float and int), 200 Hz with the ang_vel and re-integration clauses; traced at 100, 50, 333 Hz",
+    'in_degrees': "both routes; search: False/True/absent x every other option; traced False and True",
+    'normalized_mag': "both routes; search: False/True/absent; traced False and True",
+    'reference_gravitational_vector': "both routes; search: default / random float array / list of ints; traced symbolically",
+    'reference_magnetic_vector': "both routes; search: default / random float array / list of ints / (0.5,0.5,0.5); traced symbolically",
+    'gyr_noise': "both routes; search: 0, 0.3, 1, 2, default (3-vector); traced symbolically",
+    'acc_noise': "both routes; search: 0, 0.05, default; traced symbolically",
+    'mag_noise': "both routes; search: 0, 40, 3e5, 1e6, default; traced symbolically",
+    'span': "random route (ignored by the given route, where it is passed as a no-op); search: absent, (0,pi/2), [-pi/2,pi/2], (-0.3,0.3), "
+            "(-pi,pi) with every clause incl. ang_vel-vs-quaternions and re-integration; clause: ang_pos inside hull(span, 0)",
+    'yaw': "random route (no-op on the given route); search: absent, 0.0, 37.5, -120.0, 90 (int) with every clause incl. "
+           "ang_vel-vs-reported-quaternions and re-integration; clause: ang_pos[:,2] = yaw*DEG2RAD; traced symbolically: C20_rand_yaw",
+}
+_NOT_KEYWORDS = {'self', 'kwargs'}
+
+
+def constructor_keywords():
+    """every keyword Sensors(...) understands: named parameters + keys read from **kwargs anywhere in the class"""
+    import ast, inspect, textwrap
+    M = _mod()
+    names = [p for p in inspect.signature(M.Sensors.__init__).parameters if p not in _NOT_KEYWORDS]
+    tree = ast.parse(textwrap.dedent(inspect.getsource(M.Sensors)))
+    for node in ast.walk(tree):
+        key = None
+        if isinstance(node, ast.Call) and isinstance(node.func, ast.Attribute) and node.func.attr in ('get', 'pop', 'setdefault') \
+                and isinstance(node.func.value, ast.Name) and node.func.value.id == 'kwargs' and node.args:
+            key = node.args[0]
+        elif isinstance(node, ast.Subscript) and isinstance(node.value, ast.Name) and node.value.id == 'kwargs':
+            key = node.slice
+        elif isinstance(node, ast.Compare) and len(node.comparators) == 1 and isinstance(node.comparators[0], ast.Name) \
+                and node.comparators[0].id == 'kwargs' and isinstance(node.ops[0], (ast.In, ast.NotIn)):
+            key = node.left
+        if isinstance(key, ast.Constant) and isinstance(key.value, str) and key.value not in names:
+            names.append(key.value)
+    return names
+
+
+def keyword_coverage(ctx):
+    found = constructor_keywords()
+    missing = [k for k in found if k not in KEYWORDS]
+    ctx.targets_meta['_constructor_keywords'] = {'found': found, 'covered': {k: KEYWORDS[k] for k in found if k in KEYWORDS},
+                                                 'not_exercised': missing}
+    for k in missing:
+        ctx.broken.append({'kind': 'coverage', 'target': 'Sensors.__init__',
+                           'error': f"constructor keyword '{k}' is read by the code but exercised by no oracle of C20"})
+        ctx.say(f"[keywords] Sensors(...) understands '{k}', which no C20 oracle exercises")
+    ctx.say(f"[keywords] Sensors(...): {len(found)} keywords enumerated from the signature and the kwargs reads, {len(found) - len(missing)} exercised")
+
+
 ORACLES = {'sensors': o_sensors}
 WITNESS_MAG0 = {'kind': 'given', 'traj': 'stationary', 'n': 10, 'tseed': 1, 'seed': 7, 'sg': 0.0, 'sa': 0.0, 'sm': 0.0,
                 'in_degrees': False, 'normalized_mag': False}
@@ -501,6 +690,8 @@ def search(ctx, scale):
     """every attribute of a case is drawn independently (seeded), so that no option, size or noise pattern is tied to
     another one; the first cases enumerate sizes x zero-noise settings exhaustively"""
     r = ctx.rng
+    if hasattr(ctx, 'broken'):
+        keyword_coverage(ctx)
     sizes = [10, 11, 12, 13, 16, 20, 25, 32, 50, 51, 64, 100, 128]
     trajs = ['const-axis', 'smooth', 'stationary', 'pause-then-turn', 'from-identity', 'random-unit', 'int-axes']
     levels = [(0.0, 0.0, 0.0), (0.0, 0.0, 1e6), (0.3, 0.05, 0.0), (0.0, 0.05, 40.0), (2.0, 0.0, 3e5), (0.0, 0.0, 0.0), (0.0, 0.0, 0.0)]
@@ -519,12 +710,23 @@ def search(ctx, scale):
             inp['mref'] = [int(x) for x in r.integers(-40000, 40000, 3)]; inp['gref'] = [0, 0, 10]; inp['ref_as_list'] = True
         if r.integers(0, 12) == 0:
             inp['mref'] = [0.5, 0.5, 0.5]; inp['sm'] = 0.0; inp['traj'] = 'stationary'    # ptp(magnetometers) = 0
+        if r.integers(0, 5) == 0:                     # random-route keywords must be no-ops here
+            inp['yaw'] = pick([0.0, 45.0]); inp['span'] = [0.0, 1.0]
         ctx.check('sensors', inp, sens_call(inp),
                   nontrivial_key=None if inp['traj'] == 'stationary' else ('given', inp['traj'], deg, nrm, inp['seed']))
 
-    def rand(n, lv, deg, nrm):
-        inp = {'kind': 'random', 'n': int(n), 'seed': int(r.integers(1, 2**31)), 'freq': pick([100.0, 50.0, 100.0, 200.0]),
-               'sg': lv[0], 'sa': lv[1], 'sm': lv[2], 'in_degrees': deg, 'normalized_mag': nrm, 'twice': bool(r.integers(0, 6) == 0)}
+    yaws = [None, None, 0.0, 37.5, -120.0, 90]
+    spans = [None, None, [0.0, math.pi / 2], [-math.pi / 2, math.pi / 2], [-0.3, 0.3], [-math.pi, math.pi]]
+
+    def rand(n, lv, deg, nrm, yaw='pick', span='pick'):
+        inp = {'kind': 'random', 'n': int(n), 'seed': int(r.integers(1, 2**31)), 'freq': pick([100.0, 50.0, 100.0, 200.0, 10.0, 100]),
+               'sg': lv[0], 'sa': lv[1], 'sm': lv[2], 'in_degrees': deg, 'normalized_mag': nrm, 'twice': bool(r.integers(0, 6) == 0),
+               'yaw': pick(yaws) if yaw == 'pick' else yaw, 'span': pick(spans) if span == 'pick' else span,
+               'span_as_tuple': bool(r.integers(0, 2))}
+        if r.integers(0, 3) == 0:
+            inp['mref'] = (r.standard_normal(3) * 10 ** r.uniform(-1, 4)).tolist()
+            inp['gref'] = (r.standard_normal(3) * 9.8).tolist()
+            inp['ref_as_list'] = bool(r.integers(0, 4) == 0)
         ctx.check('sensors', inp, sens_call(inp), nontrivial_key=('random', deg, nrm, inp['seed']))
 
     for n in sizes:                                   # exhaustive: size x units x normalisation at zero noise
@@ -532,6 +734,10 @@ def search(ctx, scale):
             for nrm in (False, True):
                 given(n, (0.0, 0.0, 1e6 if nrm else 0.0), deg, nrm, pick(trajs[:2]))
                 rand(n, (0.0, 0.0, 1e6), deg, nrm)
+    for yaw in yaws[2:]:                              # exhaustive: yaw x span x units on the random route, noise-free gyro
+        for span in spans[1:]:
+            for deg in (False, True):
+                rand(pick([51, 64, 100, 128, 200]), (0.0, 0.0, 1e6), deg, pick([False, True]), yaw=yaw, span=span)
     for _ in range(300 * scale):
         n = pick(sizes) if r.integers(0, 4) else int(r.integers(10, 300))
         given(n, pick(levels), pick([False, True]), pick([False, True]), pick(trajs))
@@ -543,3 +749,5 @@ def search(ctx, scale):
 
 
 STAGES = _stages()
+# thorough tier only: the other traced sampling rates (20-55 s per file)
+STAGES_THOROUGH = [['C20_gyro_rad_50.v', 'C20_gyro_rad_333.v', 'C20_gyro_deg_333.v', 'C20_randfull.v'], ['C20_thorough.v']]
